@@ -92,7 +92,7 @@ BIG_TXT = (b"\xfa" + b"k=" + b"v" * 248) * 6  # 1506 bytes of TXT rdata: the rec
 def gen_reuse(rng, idx):
     """the same ServiceInfo object is unregistered and handed to async_register_service again at once, the goodbye task not
     awaited (the host's own announcement of the name is still in its cache: with renaming allowed the object is renamed before the
-    goodbye task's first step -- known finding D27)"""
+    goodbye task's first step -- D27, repaired)"""
     h = rng.choice([HOSTS[0], HOSTS[1]])
     svcs = [{"inst": "svc0", "type": rng.choice(TYPES), "server": h[0], "v4": list(h[1]), "v6": list(h[2]), "port": 80, "text": "",
              "host_ttl": 120, "other_ttl": 4500}]
@@ -770,8 +770,9 @@ def oracle(sc, obs, res, case):
                     gb.append({"t": x[1], "per": per, "last": last, "j": j, "fields": x[3][4]})
             gb.sort(key=lambda g: g["j"])
             sent = [g for g in gb if g["per"]]
-            # KNOWN FINDING D27: between the unregister call and a goodbye step the same object was handed to async_register_service
-            # and renamed: the goodbyes carry the new name
+            # D27 (repaired: the goodbye packet is built when async_unregister_service is called): on a tree without the repair, between
+            # the unregister call and a goodbye step the same object was handed to async_register_service and renamed: the goodbyes
+            # carry the new name
             reused = [g for g in gb if g["fields"]["name"] != f["name"]
                       and any(x[0] == "chk" and x[3] == e[3] for x in ev[i + 1:g["j"]])]
             if reused:
